@@ -14,6 +14,7 @@ type c08Shape struct {
 	unit     []int
 	fin      int // 0 Find, 1 Count, 2 Pluck, 3 Update, 4 Delete, 5 First, 6 UpdateColumn
 	unscoped bool
+	ptr      bool // the model declares its marker as *gorm.DeletedAt
 }
 
 var c08Units = []int{0, 1, 2, 3, 5, 6, 9, 11, 12, 14, 15, 20}
@@ -46,6 +47,15 @@ func c08Shapes(tier int) []c08Shape {
 			}
 		}
 	}
+	// the same on a model whose marker is a pointer field (DeletedAt *gorm.DeletedAt)
+	for _, un := range []bool{false, true} {
+		for fin := 0; fin <= 6; fin++ {
+			r = append(r, c08Shape{fin: fin, unscoped: un, ptr: true})
+			for _, cu := range [][2]int{{0, 0}, {1, 1}, {2, 5}, {0, 1}} {
+				r = append(r, c08Shape{comb: []int{cu[0]}, unit: []int{cu[1]}, fin: fin, unscoped: un, ptr: true})
+			}
+		}
+	}
 	return r
 }
 
@@ -65,11 +75,17 @@ func H_C08_Chain(shape int) {
 	if sh.unscoped {
 		desc += ".Unscoped"
 	}
+	if sh.ptr {
+		desc += ".pointer-marker"
+	}
 	verifrt.Tag(desc)
 	row := newSymRow("id", "a", "b", "c", "deletedat")
 	verifrt.Assume(!row.nulls[0])
 	base := openDry(stubDialector{})
 	db := base.Model(&S3{})
+	if sh.ptr {
+		db = base.Model(&S3P{})
+	}
 	if sh.unscoped {
 		db = db.Unscoped()
 	}
@@ -99,8 +115,13 @@ func H_C08_Chain(shape int) {
 	skip, tail := 0, 0
 	switch sh.fin {
 	case 0:
-		var out []S3
-		stmt = db.Find(&out).Statement
+		if sh.ptr {
+			var out []S3P
+			stmt = db.Find(&out).Statement
+		} else {
+			var out []S3
+			stmt = db.Find(&out).Statement
+		}
 	case 1:
 		var n int64
 		stmt = db.Count(&n).Statement
@@ -111,13 +132,22 @@ func H_C08_Chain(shape int) {
 		stmt = db.Update("c", 1).Statement
 		skip = 1
 	case 4:
-		stmt = db.Delete(&S3{}).Statement
+		if sh.ptr {
+			stmt = db.Delete(&S3P{}).Statement
+		} else {
+			stmt = db.Delete(&S3{}).Statement
+		}
 		if !sh.unscoped {
 			skip = 1 // SET deletedat = ?
 		}
 	case 5:
-		var out S3
-		stmt = db.First(&out).Statement
+		if sh.ptr {
+			var out S3P
+			stmt = db.First(&out).Statement
+		} else {
+			var out S3
+			stmt = db.First(&out).Statement
+		}
 		tail = 1 // LIMIT ?
 	case 6:
 		stmt = db.UpdateColumn("c", 1).Statement
